@@ -183,6 +183,35 @@ def _install_roots_stub(ctx, single=False):
         lift1('absolute', abs)
         lift1('iscomplex', lambda r: not r.is_real)
         lift1('conj', lambda r: r.conjugate())
+
+        def _lt(a, b):
+            # numpy's order of complex numbers: by real part, then by imaginary part
+            if bool(a.val < b.val):
+                return True
+            if bool(a.val > b.val):
+                return False
+            return bool(a.im < b.im)
+
+        def sort_complex(self, a):
+            if isinstance(a, RootArr):
+                rs = list(a.roots)
+                for i in range(1, len(rs)):          # insertion sort: every comparison is a solver-decided fork
+                    j = i
+                    while j > 0 and _lt(rs[j], rs[j - 1]):
+                        rs[j], rs[j - 1] = rs[j - 1], rs[j]
+                        j -= 1
+                return RootArr(rs)
+            return npshim._np.sort_complex(a)
+        npshim._Shim.sort_complex = sort_complex
+        orig_sort = getattr(npshim._Shim, 'sort', None)
+
+        def sort(self, a, *args, **kw):
+            if isinstance(a, RootArr):
+                return sort_complex(self, a)
+            if orig_sort is not None:
+                return orig_sort(self, a, *args, **kw)
+            return npshim._np.sort(a, *args, **kw)
+        npshim._Shim.sort = sort
     return rec
 
 
